@@ -26,10 +26,24 @@ import Y0.Model.Expr
 namespace Y0
 namespace TrDsl
 
+/-! ### stable sorting
+
+`Y0.sortBy` (Model/Expr.lean) puts an element AFTER the elements with an equal key that follow it in the input, i.e. it
+reverses ties; Python's `sorted` is stable.  `ssort` is the stable insertion sort used here. -/
+
+/-- insert `x`, which precedes every element of the (sorted) list in the input, before the first element that is not
+strictly smaller -/
+def insertStable {α} (lt : α → α → Bool) (x : α) : List α → List α
+  | [] => [x]
+  | y :: ys => if lt y x then y :: insertStable lt x ys else x :: y :: ys
+
+/-- stable insertion sort: Python's `sorted(l, key=…)` for a key order `lt` -/
+def ssort {α} (lt : α → α → Bool) (l : List α) : List α := l.foldr (insertStable lt) []
+
 /-! ### variables -/
 
 /-- `_upgrade_ordering(vs)` = `_sorted_variables(set(vs))` -/
-def sortVars (vs : List Var) : List Var := sortBy Var.keyLt (dedup' vs)
+def sortVars (vs : List Var) : List Var := ssort Var.keyLt (dedup' vs)
 
 /-- `Variable(name)` for every name, as `_upgrade_ordering` of a set of plain variables -/
 def plainVars (ns : List Name) : List Var := sortVars (ns.map Var.plain)
@@ -43,7 +57,7 @@ def overlapping (ivs : List Iv) : Bool := ivs.any fun a => ivs.any fun b => a.na
 /-- `Variable.intervene` / `CounterfactualVariable.intervene` with the variables `zs`.
 `ValueError` when the subscript set would be empty or two values of one variable meet. -/
 def interveneVar (zs : List Var) (v : Var) : Except Err Var :=
-  let ivs := sortBy Iv.lt (dedup' (v.ivs ++ zs.map toIv))
+  let ivs := ssort Iv.lt (dedup' (v.ivs ++ zs.map toIv))
   if ivs.isEmpty then .error (.internal "ValueError")
   else if v.isCf && overlapping ivs then .error (.internal "ValueError")
   else .ok { name := v.name, star := v.star, isIv := false, ivs := ivs }
@@ -137,7 +151,7 @@ def productSafe (es : List Expr) : Expr :=
   else match es with
     | [] => .one
     | [e] => e
-    | _ => .prod (sortBy exprLt es)
+    | _ => .prod (ssort exprLt es)
 
 /-- `Fraction(n, d)`: `ZeroDivisionError` when the denominator is `Zero()` -/
 def mkFrac (n d : Expr) : Except Err Expr :=
@@ -287,7 +301,7 @@ def simplifyCast : Expr → Except Err Expr
 
 /-- `Canonicalizer._sorted`: stable sort by the level of the variable's NAME in the alphabetical ordering of the
 expression's variables, i.e. stable sort by name -/
-def sortByName (vs : List Var) : List Var := sortBy (fun a b => a.name < b.name) vs
+def sortByName (vs : List Var) : List Var := ssort (fun a b => a.name < b.name) vs
 
 mutual
 /-- `Canonicalizer.canonicalize` -/
